@@ -9,6 +9,7 @@ mod value;
 mod wire;
 mod router;
 mod sched;
+mod crash;
 
 fn main() {
     let args: Vec<String> = std::env::args().collect();
@@ -21,6 +22,8 @@ fn main() {
         "wire" => wire::run(&args[2..]),
         "router" => router::run(&args[2..]),
         "sched" => sched::run(&args[2..]),
+        "crash" => crash::run(&args[2..]),
+        "crashchild" => crash::child(&args[2..]),
         s => {
             eprintln!("unknown scenario {}", s);
             std::process::exit(2);
